@@ -443,7 +443,7 @@ def blocks_program(rng, with_bind=False, inject_error=True):
     return b"\n".join(lines) + b"\n"
 
 
-SELS = [b"", b":1", b":first", b":last", b":all", b":2", b":foo", b":", b':"a"']
+SELS = [b"", b":1", b":first", b":last", b":all", b":2", b":foo", b":", b':"a"', b":01", b":0x1", b":001", b":1.0", b":0", b":10", b":First", b":ALL"]
 TGTS = [b"struct", b"slice", b"map", b""]
 
 
@@ -459,6 +459,9 @@ def check_C03(ctx):
     rng = random.Random(ctx.seed * 3001 + 3)
     srcs = [blocks_program(rng) for _ in range(ctx.n(1000, 10000))]
     srcs += [blocks_program(rng, with_bind=True, inject_error=False) for _ in range(ctx.n(300, 3000))]
+    srcs += [b'def a "outer" { def b "mid" { def c "in" { x = TYPE + NAME } }\n t1 = TYPE\n n1 = NAME\n print TYPE + "." + NAME }\n',
+             b'def a "o" { def b "m" { def c "i" { }\n tb = TYPE + NAME }\n ta = TYPE + NAME\n def d "e" { def f "g" { def h { } } }\n tz = NAME }\n',
+             b'def tunnel "a" { x = 1 }\ndef tunnel "b" { x = 2 }\ndef tunnel "a" { x = 3 }\ndef other "a" { }\ndef tunnel { }\ndef tunnel { }\ndef tunnel "a" { x = 4 }\n']
     srcs += [b"def svc { port = 8000\n var port = port+1\n port = port+10\n addr = \"host:\"+port }\n",
              b"def a { retries = 1 }\nvar retries = 5\ndef b { x = retries }\ndef c { retries = 9\n y = retries }\n",
              b"def a { f = 1\n def b { f = 2\n var f = 3\n g = f }\n h = f\n var f = 4\n i = f }\n",
@@ -504,6 +507,8 @@ def check_C04(ctx):
             srcs.append(b'def my_svc "a" { i = 1 }\ndef mysvc "b" { i = 2 }\ndef MySvc "c" { i = 3 }\nbind ' + bt + sel + b" -> " + tgt + b"\n")
     srcs += [b"def a{x=1}\ndef other{y=0}\ndef a{x=2}\nbind a:all -> slice\n", b"def a{x=1}\ndef other{y=0}\ndef a{x=2}\nbind a -> struct\n",
              b"def o{}\ndef a{x=1}\ndef o{}\ndef o{}\ndef a{x=2}\ndef a{x=3}\ndef o{}\nbind a:all -> slice\n"]
+    srcs += [b"def t {}\nbind t -> struct\nbind t:first -> struct\nbind t:last -> struct\n", b"def t {}\ndef t {}\nbind t:all -> slice\nbind t:first -> slice\nbind t:all -> slice\n",
+             b"def t { x = 1 }\nbind t -> struct\nbind t -> struct\nprint 1\n"]
     srcs += [b"def t {}\nbind t -> struct\nbind t:first -> slice\nbind t:last -> struct\n",
              b"def t {}\ndef a { bind t -> struct }\n", b"def a { def t {}\n bind t -> struct }\n",
              b"def t {}\nbind t -> struct\nbind nosuch -> struct\n", b"bind -> struct\n", b"bind t struct\n",
